@@ -341,8 +341,21 @@ pub fn gen_case(rng: &mut Rng, tier: Tier) -> Case {
                         }
                     }
                     _ => {
-                        let (spec, d) = gen_xz(rng, &XzGenParams::standard(3));
+                        let (mut spec, d) = gen_xz(rng, &XzGenParams::standard(3));
                         desc = format!("well-formed .xz: {}", d.chars().take(200).collect::<String>());
+                        // a third: the LZMA2 dictionary property re-announced (any of the 41 legal
+                        // values, mostly the smallest ones), the header re-sealed - the payload may
+                        // then use distances beyond what the block announces
+                        if rng.chance(1, 3) {
+                            for b in spec.blocks.iter_mut() {
+                                for f in b.filters.iter_mut() {
+                                    if f.id == 0x21 && f.props.len() == 1 {
+                                        f.props[0] = if rng.chance(2, 3) { rng.below(4) as u8 } else { rng.below(41) as u8 };
+                                    }
+                                }
+                            }
+                            desc = format!("{} | dictionary property re-announced", desc);
+                        }
                         spec.serialize().0
                     }
                 }
